@@ -2,7 +2,7 @@
 # tools/process_mutants.sh [-s SLOT] [-w WORKERS] CXX [mN] -- vet /tmp/wt-CXX/out/mN.* (once) and run all quick checks
 # against it; results in /verif/seeded/CXX-mN/{patch.diff,demo.rs,agent_notes.txt,vet.txt,checks.txt}
 SLOT=0; W=16; SRC=/tmp/wt-; TAG=""
-while getopts "s:w:r" o; do case $o in s) SLOT=$OPTARG;; w) W=$OPTARG;; r) SRC=/tmp/r2-; TAG=r2;; esac; done; shift $((OPTIND-1))
+while getopts "s:w:rt:" o; do case $o in s) SLOT=$OPTARG;; w) W=$OPTARG;; r) SRC=/tmp/r2-; TAG=r2;; t) SRC=/tmp/$OPTARG-; TAG=$OPTARG;; esac; done; shift $((OPTIND-1))
 P="$1"; ONLY="$2"
 for d in $SRC$P/out/m*.diff /verif/seeded/$P-${TAG}m*/patch.diff; do
   [ -f "$d" ] || continue
